@@ -136,7 +136,7 @@ def gen_plan(seed, tier="quick"):
         "reader_sort_false": r.random() < 0.2,
         # joblib's thread backend (with joblib.parallel_backend("threading")): the chunk workers share one process
         "backend": "threading" if r.random() < 0.12 else "loky",     # reader_kwargs={"sort": False}: traces and geometry in the file's own channel order
-        "interrupted_first": r.choice([None, None, None, {"kind": r.choice(["kill", "torn", "io_error"]), "rseed": r.randrange(1 << 30)}]),
+        "interrupted_first": r.choice([None, None, None, {"kind": r.choice(["kill", "torn", "io_error", "interrupt", "short"]), "rseed": r.randrange(1 << 30)}]),
     }
 
 
